@@ -4,7 +4,7 @@ from vlib import Check, tlc_mc, run_harness, tlc_validate, workdir, require_acti
 
 CLASSES = {
     "C05": {"status", "headers", "body", "log", "applied", "attribution", "script_mismatch", "panic", "trace_rejected"},
-    "C06": {"handoff_decode", "handoff_reserialise", "handoff_behaviour", "panic", "trace_rejected"},
+    "C06": {"handoff_decode", "handoff_reserialise", "handoff_behaviour", "request_json_roundtrip", "panic", "trace_rejected"},
     "C11": {"order_permutation", "order_insertion", "panic", "trace_rejected"},
 }
 CFGS = {
@@ -47,6 +47,9 @@ def run_prop(prop, tier):
         run_harness("act", cases, trace, env={"ACT_RICH": "1"} if prop == "C06" else {})
         v = tlc_validate("Trace_Action", "Trace_Action.cfg", trace, wd, shards=10, boundary=("fold",))
         c.add_validation(v, cases_path=cases, behaviours=mc["replays"], boundary=("fold",), classes=CLASSES[prop])
+    if prop == "C06":
+        import p_router
+        p_router.router_part(c, wd, "C06", tier)
     c.assumptions = ["rule effects range over the pools of MC_Action.tla; response codes probed: 0, 200, 404, 500",
                      "applied-rule lists are compared as sets (the property does not fix their order)",
                      "serialised actions are compared through a 64-bit FNV hash recorded by the harness"]
